@@ -372,3 +372,26 @@ func RunDiff(d1, d2 string, o DiffOpts) (res *DiffRes) {
 	}
 	return res
 }
+
+// listRaw / diffRaw run the analysis without recovering (C12 wants the panic and its stack).
+func listRaw(dir string, exposure bool, format string) {
+	opts := []connlist.ConnlistAnalyzerOption{connlist.WithMuteErrsAndWarns(), connlist.WithOutputFormat(format)}
+	if exposure {
+		opts = append(opts, connlist.WithExposureAnalysis())
+	}
+	ca := connlist.NewConnlistAnalyzer(opts...)
+	conns, _, err := ca.ConnlistFromDirPath(dir)
+	if err == nil {
+		_, _ = ca.ConnectionsListToString(conns)
+	}
+}
+
+func diffRaw(d1, d2 string) {
+	for _, f := range []string{"txt", "dot"} {
+		da := diff.NewDiffAnalyzer(diff.WithOutputFormat(f))
+		cd, err := da.ConnDiffFromDirPaths(d1, d2)
+		if err == nil && cd != nil {
+			_, _ = da.ConnectivityDiffToString(cd)
+		}
+	}
+}
